@@ -39,6 +39,7 @@ import (
 	"github.com/gotid/god/lib/stat"
 	"github.com/gotid/god/lib/store/redis"
 	"github.com/gotid/god/lib/syncx"
+	"github.com/gotid/god/lib/timex"
 	"verif.local/vk"
 )
 
@@ -109,6 +110,9 @@ func c06GetRig() (*c06Rig, error) {
 	c06RigOnce.Do(func() {
 		logx.Disable()
 		stat.SetReporter(nil)
+		// one tick of the cleaner wheel == one second of the library clock (the redis
+		// breaker's 10 s rolling window runs on lib/timex), continuing from the real value
+		timex.VerifFakeClock(timex.Now())
 		r := &c06Rig{
 			tk:       &c06Ticker{c: make(chan time.Time)},
 			sentinel: make(chan int64, 4),
@@ -211,6 +215,7 @@ func (r *c06Rig) step() (ok bool, why string) {
 	}
 	before := atomic.LoadInt64(&r.cleanCall)
 	atomic.StoreInt64(&r.tick, n)
+	timex.VerifAdvance(time.Second)
 	wd := time.NewTimer(c06Watchdog)
 	defer wd.Stop()
 	select {
@@ -286,6 +291,8 @@ type c06Unit struct {
 	doneTick  int64
 	closed    bool
 	fgSeen    bool
+	mr        *miniredis.Miniredis
+	verified  bool
 }
 
 var c06Seq int64
@@ -319,6 +326,7 @@ func (x *c06Run) issue(op c06Op) (ok bool) {
 	id := atomic.AddInt64(&c06Seq, 1)
 	prefix := fmt.Sprintf("c06:%d", id)
 	now := atomic.LoadInt64(&r.tick)
+	var created []*c06Unit
 	mk := func(kind string, keys []string, g int) *c06Unit {
 		p := &c06Plan{id: fmt.Sprintf("%s#%d", prefix, g), kind: kind, keys: keys}
 		if g < len(op.FgFail) {
@@ -329,6 +337,7 @@ func (x *c06Run) issue(op c06Op) (ok bool) {
 		}
 		u := &c06Unit{plan: p, last: now}
 		x.units = append(x.units, u)
+		created = append(created, u)
 		return u
 	}
 	switch op.Kind {
@@ -369,6 +378,7 @@ func (x *c06Run) issue(op c06Op) (ok bool) {
 			us = append(us, mk(op.Kind, keys, 0))
 		}
 		for _, u := range us {
+			u.mr = mr
 			r.register(u.plan)
 			for _, k := range u.plan.keys {
 				mr.Set(k, "stale")
@@ -409,6 +419,7 @@ func (x *c06Run) issue(op c06Op) (ok bool) {
 			sort.Strings(ks)
 			u := mk("cluster", ks, g)
 			g++
+			u.mr = mr
 			r.register(u.plan)
 			for _, k := range ks {
 				mr.Set(k, "stale")
@@ -424,8 +435,8 @@ func (x *c06Run) issue(op c06Op) (ok bool) {
 	for _, ev := range r.takeEvents() {
 		x.observe(ev)
 	}
-	for _, u := range x.units {
-		if u.plan.kind != "direct" && !u.fgSeen && !u.closed && u.last == now && u.n == 0 && !u.done {
+	for _, u := range created {
+		if !u.fgSeen {
 			// the foreground DEL of this group never reached miniredis
 			x.m.Inconclusive("%s: foreground DEL of %v not observed at miniredis", x.desc, u.plan.keys)
 			return false
@@ -515,9 +526,23 @@ func (x *c06Run) deadlines(now int64) (settled bool) {
 		switch {
 		case !u.active && !u.done: // not issued / foreground unseen
 			settled = false
-		case u.done || !u.active:
+		case !u.active: // foreground delete succeeded: nothing owed, nothing flagged
+			if now < u.doneTick+10 {
+				settled = false
+			}
+		case u.done:
 			if now < u.doneTick+c06QuietTicks {
 				settled = false
+			} else if u.succeeded && u.mr != nil && !u.verified {
+				u.verified = true
+				for _, k := range u.plan.keys {
+					if u.mr.Exists(k) {
+						u.closed = true
+						x.violate("C06:retry:key-still-cached-after-successful-retry", "unit %s kind=%s: key %q still present in redis after background attempt #%d succeeded", u.plan.id, u.plan.kind, k, u.n)
+						break
+					}
+					x.stats["keys_verified_deleted"]++
+				}
 			}
 		default:
 			if now >= u.last+c06NotRetriedTicks {
@@ -682,8 +707,19 @@ func c06RandomScenario(r interface{ Intn(int) int }, idx int) c06Scenario {
 			op.NKeys = 3 + r.Intn(5)
 			groups = 3
 		}
+		failing := 0
 		for g := 0; g < groups; g++ {
-			op.FgFail = append(op.FgFail, r.Intn(4) != 0)
+			ff := r.Intn(4) != 0
+			// per-key deletes of one cluster-type node share one redis breaker: keep the
+			// failures inside its 10 s window at <= 5 (2 keys x {foreground, +1s, +5s} -> the
+			// 6th request still sees 5) so the breaker never answers instead of miniredis
+			if op.Kind == "clustertype" && ff && failing >= 2 {
+				ff = false
+			}
+			if ff {
+				failing++
+			}
+			op.FgFail = append(op.FgFail, ff)
 			op.FailFirst = append(op.FailFirst, r.Intn(7))
 		}
 		sc.Ops = append(sc.Ops, op)
